@@ -1,8 +1,8 @@
 /- line-protocol handlers for the C04 model (Model/Field.lean) on the translator-emitted programs
 (Gen/WriteProgs.lean).
 
-`rt <Type> <hex>`: parse the bytes with the reader layout of `<Type>`; answer every visible field's raw value in
-layout order, then whether re-emitting the owned value with the writer program of `<Type>` reproduces the parsed
+`rt <Type> <hex> [<arg> …]`: parse the bytes with the reader layout of `<Type>` (for a reader with external arguments
+the request carries their raw values, in `ReadArgs` order); answer every visible field's raw value in layout order, then whether re-emitting the owned value with the writer program of `<Type>` reproduces the parsed
 prefix of the input byte for byte (hand-written `compute_*` fields are re-supplied from the parsed value):
 `ok name=v name=[a,b] name=[(a.b),(c.d)] … | 1`; `err:parse` when the layout does not fit the bytes;
 `uncovered` when the translator has no pair for the type. -/
@@ -18,7 +18,15 @@ def renderVal (kind : String) : Val → String
   | .absent => "absent"
   | .arr xs =>
     if kind == "R" then
-      "[" ++ ",".intercalate (xs.map fun r => "(" ++ ".".intercalate (r.map toString) ++ ")") ++ "]"
+      -- (zero-size records are not rendered: the real reader cannot recover their number from the data — known finding)
+      "[" ++ ",".intercalate ((xs.filter (!·.isEmpty)).map fun r => "(" ++ ".".intercalate (r.map toString) ++ ")") ++ "]"
+    else if kind.startsWith "L" then
+      -- length-prefixed records: the count the reader finds in front of the items, then the items
+      let il := (kind.drop 1).toNat!
+      "[" ++ ",".intercalate (xs.map fun r => "(" ++ ".".intercalate ((r.length / il :: r).map toString) ++ ")") ++ "]"
+    else if kind == "V1" then
+      -- one inline record (`value_record: ValueRecord`)
+      ",".intercalate (xs.map fun r => "(" ++ ".".intercalate (r.map toString) ++ ")")
     else
       "[" ++ ",".intercalate (xs.map fun r => ".".intercalate (r.map toString)) ++ "]"
 
@@ -37,18 +45,27 @@ def renderFields (names shows : List String) (hidden : List Bool) (rs : List RF)
     | _, _, _, _ => []
   go names shows hidden rs
 
-def rt (ty : String) (bytes : Bytes) : String :=
+/-- the initial view of a reader with arguments: argument `i` is entry `argBase + i` -/
+def argView (args : List Nat) : View :=
+  let rec go : List Nat → Nat → View
+    | [], _ => []
+    | a :: as, i => (argBase + i, .num a) :: go as (i + 1)
+  go args 0
+
+def rt (ty : String) (bytes : Bytes) (args : List Nat) : String :=
   match Gen.WriteProgs.allPairs.find? (fun p => p.1 == ty) with
   | none => "uncovered"
-  | some (_, names, shows, hidden, ws, rs) =>
-    match parse rs [] bytes with
+  | some (_, names, shows, hidden, nargs, ws, rs) =>
+    if nargs != args.length then "err:args" else
+    let av := argView args
+    match parse rs av bytes with
     | none => "err:parse"
     | some (view, rest) =>
       let fields := renderFields names shows hidden rs view
       let o := toObj ws view
       let ext : Ext := fun k _ => match computedId ws k with | some i => numAt view i | none => 0
       let again :=
-        match emit ext o ws [] with
+        match emit ext o ws av with
         | some (bs, view') => bs ++ rest == bytes && view' == view
         | none => false
       let fs := if fields.isEmpty then "-" else " ".intercalate fields
@@ -140,10 +157,10 @@ def handle (cmd : String) (args : List String) : Option String :=
     match parseNat? p, parseNat? e, (if cps == ["-"] then some [] else parseNats? cps) with
     | some p, some e, some cps => some (ns p e cps)
     | _, _, _ => none
-  | "rt", [ty, hex] =>
-    match parseHex? hex with
-    | some bs => some (rt ty bs)
-    | none => none
+  | "rt", ty :: hex :: args =>
+    match parseHex? hex, args.mapM parseNat? with
+    | some bs, some as => some (rt ty bs as)
+    | _, _ => none
   | _, _ => none
 
 end FontVerif.Drv.C04
